@@ -1,4 +1,5 @@
 """C18 - pedigree sampler moves are stationary at the joint posterior."""
+from . import wl_cli
 from . import wl_ped
 from .engine_k import bootstrap
 
@@ -18,12 +19,12 @@ RULE = (
 )
 FAULT_KEYS = ["adversarial_choice", "shuffle", "swap_unequal_reads", "swap_q_more_reads_than_p"]
 PROBE_KEYS = ["draws_from_verified_vector", "sweeps_full", "choice_fidelity_checked", "gibbs_vectors", "mh_pairs", "swap_pairs", "unbalanced_tau_target", "selfing_target", "one_unknown_parent_target",
-              "target_has_children", "swap_no_proposal", "swap_q_more_reads_than_p", "zero_density_skip"]
+              "target_has_children", "swap_no_proposal", "swap_q_more_reads_than_p", "zero_density_skip", "cli_pedigrees_checked", "cli_unsequenced_member"]
 OPTIONAL_PROBES = {"quick": (), "thorough": ()}
 COMPONENTS = {
     "real": ["mchap.pedigree.mcmc.* (gibbs_probabilities, metropolis_hastings_probabilities, allele_step, sample_step, compound_step, pair_allele_swap_step, mcmc_sampler)",
              "mchap.pedigree.classes.PedigreeCallingMCMC.fit", "mchap.pedigree.prior.* (markov blanket, trio_allele_log_pmf, trio_log_pmf)",
-             "mchap.pedigree.likelihood.*", "all executed as plain Python (NUMBA_DISABLE_JIT=1)"],
+             "mchap.pedigree.likelihood.*", "cli flavour (3%): mchap.application.call_pedigree.program end to end (pedigree / gamete files, read arrays, allele masking) vs the files", "all executed as plain Python (NUMBA_DISABLE_JIT=1)"],
     "stub": ["numpy.random.* (tape)", "random_choice in pedigree.mcmc (tape)"],
 }
 ASSUMPTIONS = [
@@ -39,12 +40,17 @@ def prepare(tier):
 
 
 def gen_config(rng, tier, index=0):
+    if rng.random() < 0.03:
+        return wl_cli.gen_pedigree_config(rng, tier)
     cfg = wl_ped.gen_config(rng, tier, "db")
     cfg["record_kernels"] = tier == "thorough" and index % 20 == 0
     return cfg
 
 
 def execute(ctx):
+    if ctx.config.get("flavor") == "cli":
+        # the joint `mchap call-pedigree` hands to its sampler is the pedigree the files describe
+        return wl_cli.run_pedigree_cli(ctx)
     sim = wl_ped.PedSim(ctx, ctx.config, checks=("db",))
     sim.run()
 
@@ -54,6 +60,8 @@ def sut_exception_is_violation(e, ctx):
 
 
 def shrink_candidates(cfg, violation):
+    if cfg.get("flavor") == "cli":
+        return wl_cli.shrink_candidates(cfg)
     return wl_ped.shrink_candidates(cfg, violation)
 
 
